@@ -1325,13 +1325,15 @@ func main() {
 		return
 	}
 	bd := bounds{maxN: 4, maxS: 2, maxPending: 0}
-	depth, ndDepth, closedPending := 7, 4, 4
+	// Sizes measured on 16 cores: quick ~4 M transitions, thorough ~23 M (a depth-8 search with 3
+	// sessions is 50 M transitions / 30 M states and does not fit the budget on a loaded machine;
+	// a closed search with 3 sessions and <= 4 undelivered updates is 163 M transitions, 18 min).
+	depth, ndDepth := 7, 4
+	closedCfgs := []bounds{{maxN: 4, maxS: 2, maxPending: 3}}
 	if run.Thorough() {
 		bd.maxS = 3
-		depth, ndDepth, closedPending = 8, 5, 4
-	}
-	if *closedFlag >= 0 {
-		closedPending = *closedFlag
+		depth, ndDepth = 7, 5
+		closedCfgs = []bounds{{maxN: 4, maxS: 3, maxPending: 3}, {maxN: 4, maxS: 2, maxPending: 4}}
 	}
 	if *depthFlag > 0 {
 		depth = *depthFlag
@@ -1371,13 +1373,16 @@ func main() {
 	// ---- BFS with merging ----
 	// (1) closed search: undelivered updates per session bounded, no depth bound: runs until the
 	//     frontier is empty; (2) depth-bounded search without a bound on undelivered updates.
-	var closed, deep bfsResult
-	if closedPending > 0 {
-		cb := bd
-		cb.maxPending = closedPending
-		closed = bfs("closed", cb, 1000, workers, &total, &totalMu)
+	if *closedFlag == 0 {
+		closedCfgs = nil
+	} else if *closedFlag > 0 {
+		closedCfgs = []bounds{{maxN: bd.maxN, maxS: bd.maxS, maxPending: *closedFlag}}
 	}
-	deep = bfs("depth-bounded", bd, depth, workers, &total, &totalMu)
+	var closed []bfsResult
+	for _, cb := range closedCfgs {
+		closed = append(closed, bfs(fmt.Sprintf("closed,sessions<=%d,pending<=%d", cb.maxS, cb.maxPending), cb, 1000, workers, &total, &totalMu))
+	}
+	deep := bfs("depth-bounded", bd, depth, workers, &total, &totalMu)
 
 	// ---- every history up to ndDepth, no merging ----
 	var ndCount int64
@@ -1517,20 +1522,25 @@ func main() {
 	vw.close()
 
 	big := deep
-	if closed.states > deep.states {
-		big = closed
+	allTrans := deep.trans
+	anyClosedEmpty := false
+	var closedCov []interface{}
+	for _, c := range closed {
+		if c.states > big.states {
+			big = c
+		}
+		allTrans += c.trans
+		anyClosedEmpty = anyClosedEmpty || c.frontierEmpty
+		closedCov = append(closedCov, c.coverage())
 	}
-	allTrans := closed.trans + deep.trans
 	run.States, run.Trans, run.Traces = big.states, big.trans, allTrans+ndCount+matrix
 	run.AddEvals(allTrans + ndCount + matrix)
 	run.NontrivialN(big.nontrivial)
 	run.Set("bounds", map[string]interface{}{"mailbox_size_max": bd.maxN, "initial_sizes": "0..3", "open_sessions_max": bd.maxS,
-		"depth_bounded_search_depth": depth, "closed_search_pending_per_session_max": closedPending, "no_merge_depth": ndDepth})
+		"depth_bounded_search_depth": depth, "no_merge_depth": ndDepth})
 	run.Set("bfs_depth_bounded", deep.coverage())
-	if closed.ran {
-		run.Set("bfs_closed", closed.coverage())
-	}
-	run.Set("bfs_transitions_both_searches", allTrans)
+	run.Set("bfs_closed", closedCov)
+	run.Set("bfs_transitions_all_searches", allTrans)
 	run.Set("no_merge_histories", ndCount)
 	run.Set("command_matrix_histories", matrix)
 	run.Set("server_connections_opened", conns)
@@ -1544,24 +1554,24 @@ func main() {
 	run.Set("translation_want_nonzero", total.wantNonZero)
 	run.Set("translation_want_renumbered", total.renumbered)
 	run.Set("violating_observations_total", atomic.LoadInt64(&nViol))
-	run.Rule = "breadth-first search over histories of {Append(1..3), Expunge(i), MsgFlags(i,source), MailboxFlags, NewSession, Close(s), Poll(s,allowExpunge)} on the real MailboxTracker/SessionTracker (polls through a real Conn: NOOP / FETCH), merged on the canonical reference-model state (mailbox, per open session view + undelivered updates; ids renamed by rank, sessions sorted); every transition re-executed from a fresh tracker; plus every history up to the no-merge depth without merging; plus a command matrix (NOOP, CHECK, FETCH, STORE, SEARCH, UID variants) for the EXPUNGE permission. non-trivial = distinct states in which some session has undelivered updates"
+	run.Rule = "breadth-first searches (closed: undelivered updates per session bounded, run until the frontier is empty; depth-bounded: no such bound) over histories of {Append(1..3), Expunge(i), MsgFlags(i,source), MailboxFlags, NewSession, Close(s), Poll(s,allowExpunge)} on the real MailboxTracker/SessionTracker (polls through a real Conn: NOOP / FETCH), merged on the canonical reference-model state (mailbox, per open session view + undelivered updates; ids renamed by rank, sessions sorted); every transition re-executed from a fresh tracker; plus every history up to the no-merge depth without merging; plus a command matrix (NOOP, CHECK, FETCH, STORE, SEARCH, UID variants) for the EXPUNGE permission. non-trivial = distinct states in which some session has undelivered updates"
 	// exhaustive only when a frontier emptied under the configured bounds (the closed search)
-	run.Exhaustive = (closed.ran && closed.frontierEmpty) || deep.frontierEmpty
+	run.Exhaustive = anyClosedEmpty || deep.frontierEmpty
 	run.Assume("DecodeSeqNum of numbers beyond the client's view and EncodeSeqNum of numbers beyond the mailbox are called (must not panic) but their value is unconstrained: the documentation does not define them")
 	run.Assume("a session's client view starts as the mailbox at NewSession time (what SELECT reported)")
 	run.Assume("consecutive EXISTS updates may be coalesced by an implementation: delivered and expected update lists are compared after collapsing runs of EXISTS")
 	run.Assume("the tracker is driven sequentially (no concurrent Queue*/Poll); concurrency is C14's subject")
-	run.Assume("server connections are reused across histories unless --fresh-conns is given (a Conn holds no tracker state; the UpdateWriter is created per poll); each is retired after 512 histories")
-	if closed.ran && closed.frontierEmpty {
-		run.Assume(fmt.Sprintf("exhaustive=true refers to the closed search: mailbox <= %d messages (initial 0..3), <= %d simultaneously open sessions, <= %d undelivered updates per session, no depth bound; its frontier emptied at depth %d", closed.bd.maxN, closed.bd.maxS, closed.bd.maxPending, closed.depthReached))
+	run.Assume("visited states are remembered by the first 128 bits of the SHA-256 of the canonical key")
+	run.Assume("the merging searches reuse server connections across histories unless --fresh-conns is given (a Conn holds no tracker state; the UpdateWriter is created per poll; each connection is retired after 512 histories); the no-merge pass, the 5x re-execution of every counterexample and --replay use a fresh connection per session")
+	for _, c := range closed {
+		if c.frontierEmpty {
+			run.Assume(fmt.Sprintf("exhaustive=true refers to the closed search: mailbox <= %d messages (initial 0..3), <= %d simultaneously open sessions, <= %d undelivered updates per session, no depth bound; its frontier emptied at depth %d", c.bd.maxN, c.bd.maxS, c.bd.maxPending, c.depthReached))
+		}
 	}
 	if !deep.frontierEmpty {
 		run.Assume(fmt.Sprintf("without a bound on undelivered updates the state space is infinite (flag updates accumulate): the depth-bounded search stops at depth %d with %d states on its frontier; every history up to that depth is covered modulo merging", depth, deep.frontierLeft))
 	}
-	for _, r := range []bfsResult{closed, deep} {
-		if !r.ran {
-			continue
-		}
+	for _, r := range append(append([]bfsResult{}, closed...), deep) {
 		fmt.Printf("C07 bfs: mailbox<=%d initial 0..3 sessions<=%d pending/session<=%d (0=unbounded) depth<=%d | states=%d transitions=%d depth_reached=%d frontier_exhausted=%v (left %d) wall=%.1fs\n",
 			r.bd.maxN, r.bd.maxS, r.bd.maxPending, r.depthBound, r.states, r.trans, r.depthReached, r.frontierEmpty, r.frontierLeft, r.wall.Seconds())
 	}
